@@ -102,3 +102,10 @@ check("C11",
   "For every role (positional argument, keyword argument, callee), name flavour (plain, dotted m.fn / m.sub.fn, back-quoted) and env depth 0..3 (generated nested callers with their own globals and decoy bindings), all subsets of {data frame, built-ins, caller locals, caller globals, extra_namespace} defining the name are explored; each scope binds a different z3 value (or None), and the design-matrix column must equal, as z3 terms, x + the value of the first defining scope in the documented order (callee skips the data frame); a name defined nowhere must raise. VarLookupDict is explored separately over dict layouts incl. None values.",
   "Trusted: z3; stubs in evidence. The built-in scope is represented by the built-in name 'I'. Scope subsets are enumerated decision bits; the values are symbolic.",
   "DESIGN.md section 4 C11")
+
+check("C12",
+  "symbolic execution of call terms through the real pipeline on z3-real columns, differential against Python's own eval of the same text on the same symbolic columns (z3 decides equality); names compared with the normalised source text",
+  "model_checking",
+  "For every argument expression of the bound (all operator trees of depth <= 2 over columns and number literals with unary signs and the 11 binary operators, a slice of depth 3 incl. arithmetic over comparison results) and 21 call forms (positional/keyword/nested calls to recording functions, string/True/False/None literals, whitespace variants): the column produced by the real pipeline equals, as z3 terms (comparisons fork per row), Python's eval of the same text; recording functions receive the arguments Python would pass; the term name is the normalised source text; whitespace variants are one term; {e} is I(e); texts with different trees have different names; two different calls in one formula stay two terms. Four known findings (sign over power, power chains, parentheses dropped from names, resulting name collisions) are matched by structural markers of the input plus the observed reading.",
+  "Trusted: z3; Python's eval as oracle; stubs in evidence; powers with non-integer / symbolic exponents are uninterpreted functions (same symbol on both sides). Chained comparisons, constant-only expressions and strings containing quote characters are outside.",
+  "DESIGN.md section 4 C12")
